@@ -84,9 +84,31 @@
 (* connection and runBridgeForward then splices that connection and the source with two io.Copy   *)
 (* loops (no limiter; a finished direction half-closes its destination - seenEOF -, the bridge is *)
 (* closed when both are done; an end that sees EOF closes: React).                                *)
-(*   Hold = the tunnel lives longer than the heartbeat timeout.  A tunnel leg that is still       *)
-(* registered as a control connection (named variant DevLegRegistered) never heartbeats: the      *)
-(* stale-connection sweeper closes its stream - the tunnel ends with both ends open.              *)
+(*   "fwd" = the server in the OTHER cross-node role: it is the target's node, the bridge lives   *)
+(* on the source's node.  The target's tunnel connection comes through the packet path,           *)
+(* handleTunnelOpen finds the tunnel in the routing table (source node = another node),           *)
+(* forwardToSourceNode acknowledges, dials the source node through the TunnelConnectionManager,   *)
+(* sends TargetReady and runCrossNodeDataForwardDedicated splices the target's connection and     *)
+(* that TCP connection (for this server the source END is that connection) with two io.Copy       *)
+(* loops, as above; `registered` = the connection manager's entry for the tunnel.                 *)
+(*   The source leg, too, arrives either as a call of startSourceBridge (skind "direct": what     *)
+(* the driver did so far, and what StartServerTunnel does) or through the packet path (skind      *)
+(* "pkt": Handshake registers it in the ClientRegistry, TunnelOpen -> handleTunnelOpen            *)
+(* unregisters it - removeFromControlConnMap / cleanupTunnelFromControlConn - and                 *)
+(* handleSourceBridge starts the bridge).                                                         *)
+(*   Hold = the tunnel lives longer than the heartbeat timeout and the idle timeout, both ends    *)
+(* talking all the while.  A tunnel leg that is still registered as a control connection never    *)
+(* heartbeats: the stale-connection sweeper closes its stream - the tunnel ends with both ends    *)
+(* open.  RegLegs names the legs left registered: "S" = the source leg (seeded variant), "T" =    *)
+(* the target leg joined through handleExistingBridge (seeded variant), "F" = the target leg      *)
+(* forwarded to the source node: AS FOUND forwardToSourceNode never unregisters it.               *)
+(*   DevIdleSweep (as found): the TunnelConnectionManager notes activity when the connection is   *)
+(* dialled and when a direction ENDS, not when bytes move: its idle sweep (5 min, every 30 s)     *)
+(* closes the cross-node connection of a tunnel that is busy.                                     *)
+(*   DevFwdNoEof (as found): when the source side of a forwarded tunnel is done (end-of-stream    *)
+(* from the source node) nothing is passed on to the target's connection - the source node's      *)
+(* runBridgeForward half-closes the source forwarder in the mirror case -: a silent target never  *)
+(* sees the closure, the forwarder never returns, the tunnel is never forgotten.                  *)
 (*   DevBufio (named variant): the first frame is read through a buffered reader that is thrown   *)
 (* away - what the target sent right behind the frame is gone.                                    *)
 (*   Statistics backend (cloud control): Close() closes the connections, cancels the context and  *)
@@ -117,9 +139,12 @@ CONSTANTS BUF,         \* copy buffer size (model scale, >= 3)
           DevWriteLock,    \* TRUE: target->source writes hold sourceConnMu (seeded variant); FALSE: lookup only
           DevRouteFirst,   \* TRUE: routing cleanup first, return on its error (seeded variant); FALSE: map entry first
           DevCleanupFirst, \* TRUE: Close() runs the clean-up handlers before it closes the connections (seeded variant)
-          DevLegRegistered,\* TRUE: the target's tunnel connection stays in the ClientRegistry (seeded variant)
+          RegLegs,         \* tunnel legs left in the ClientRegistry: subset of {"S", "T", "F"} ("F" as found; "S", "T" seeded variants)
+          DevIdleSweep,    \* TRUE: the connection manager's idle sweep ignores moving bytes (as found); FALSE: they count as activity
+          DevFwdNoEof,     \* TRUE: a forwarded tunnel does not pass the source's end-of-stream on to the target (as found)
+          SrcKinds,        \* ways the source leg arrives: subset of {"direct", "pkt"}
           DevBufio,        \* TRUE: cross-node first frame read through a discarded bufio.Reader (seeded variant)
-          AttachKinds,     \* ways of attaching the target explored: subset of {"local", "pkt", "xnode"}
+          AttachKinds,     \* ways of attaching the target explored: subset of {"local", "pkt", "xnode", "fwd"}
           HoldOn,          \* TRUE: tunnels that outlive the heartbeat timeout explored
           Gen,         \* TRUE: generation mode (history kept)
           Emit         \* TRUE: print behaviours
@@ -128,17 +153,17 @@ VARIABLES lim, tokens, paid,
           attached, endSt, avail, sent, delivered, rdOff, inflight, pc,
           armed, glitch, nfault, bridgeClosed, registered, nsend, ended,
           endMode, rdErr, stalled, routeFail,
-          akind, held, seenEOF, statStall, closerBusy,
+          akind, skind, held, seenEOF, statStall, closerBusy,
           replaced, oldClosed, rdgen,
           devLimErr, devStale, lost, misorder, crashed, dropped,
           hist
 
 vars == <<lim, tokens, paid, attached, endSt, avail, sent, delivered, rdOff, inflight, pc,
-          armed, glitch, nfault, bridgeClosed, registered, nsend, ended, endMode, rdErr, stalled, routeFail, akind, held, seenEOF, statStall, closerBusy,
+          armed, glitch, nfault, bridgeClosed, registered, nsend, ended, endMode, rdErr, stalled, routeFail, akind, skind, held, seenEOF, statStall, closerBusy,
           replaced, oldClosed, rdgen,
           devLimErr, devStale, lost, misorder, crashed, dropped, hist>>
 view == <<lim, tokens, paid, attached, endSt, avail, sent, delivered, rdOff, inflight, pc,
-          armed, glitch, nfault, bridgeClosed, registered, nsend, ended, endMode, rdErr, stalled, routeFail, akind, held, seenEOF, statStall, closerBusy,
+          armed, glitch, nfault, bridgeClosed, registered, nsend, ended, endMode, rdErr, stalled, routeFail, akind, skind, held, seenEOF, statStall, closerBusy,
           replaced, oldClosed, rdgen,
           devLimErr, devStale, lost, misorder, crashed, dropped>>
 
@@ -156,6 +181,7 @@ SumSeq(q) == IF q = <<>> THEN 0 ELSE Head(q) + SumSeq(Tail(q))
 Size(c) == CASE c = "one" -> 1 [] c = "Bm1" -> BUF - 1 [] c = "B" -> BUF [] c = "Bp1" -> BUF + 1 [] c = "big" -> 2 * BUF
 Paced(l) == l \in {"tiny", "edge", "slow"}
 Burst(l) == CASE l = "tiny" -> 1 [] l = "slow" -> 1 [] l = "edge" -> BUF [] OTHER -> 0
+ASSUME AttachKinds \subseteq {"local", "pkt", "xnode", "fwd"} /\ SrcKinds \subseteq {"direct", "pkt"} /\ RegLegs \subseteq {"S", "T", "F"}
 ASSUME BUF >= 3 /\ Lims \subseteq {"none", "tiny", "edge", "large", "slow"} /\ Classes \subseteq {"one", "Bm1", "B", "Bp1", "big"}
 
 \* the connection an end currently writes to / the copier of direction d currently reads
@@ -163,6 +189,9 @@ SendChan(e) == IF e = "T" THEN "t" ELSE IF replaced THEN "s2" ELSE "s1"
 RdChan(d)   == IF d = "t2s" THEN "t" ELSE IF rdgen = 1 THEN "s1" ELSE "s2"
 \* the s2t copier still reads the connection that was replaced
 OnOld(d) == d = "s2t" /\ replaced /\ rdgen = 1
+\* the two directions are two io.Copy loops between the end on this node and a TCP connection to the
+\* other node (no limiter, half-close instead of close-on-first-finish)
+Splice(k) == k \in {"xnode", "fwd"}
 
 Init == /\ lim \in Lims /\ tokens = Burst(lim) /\ paid = [d \in Dirs |-> 0]
         /\ attached = FALSE
@@ -174,13 +203,13 @@ Init == /\ lim \in Lims /\ tokens = Burst(lim) /\ paid = [d \in Dirs |-> 0]
         /\ armed = [e \in Ends |-> FALSE] /\ glitch = [e \in Ends |-> "no"] /\ nfault = 0
         /\ endMode = [e \in Ends |-> "plain"] /\ rdErr = [d \in Dirs |-> "none"]
         /\ stalled = [e \in Ends |-> FALSE] /\ routeFail = FALSE
-        /\ akind = "none" /\ held = FALSE /\ seenEOF = [e \in Ends |-> FALSE] /\ statStall = FALSE /\ closerBusy = FALSE
+        /\ akind = "none" /\ skind \in SrcKinds /\ held = FALSE /\ seenEOF = [e \in Ends |-> FALSE] /\ statStall = FALSE /\ closerBusy = FALSE
         /\ bridgeClosed = FALSE /\ registered = TRUE /\ nsend = 0 /\ ended = "none"
         /\ replaced = FALSE /\ oldClosed = FALSE /\ rdgen = 1
         /\ devLimErr = FALSE /\ devStale = FALSE /\ lost = [d \in Dirs |-> 0] /\ misorder = FALSE /\ crashed = FALSE /\ dropped = 0
         /\ hist = <<>>
 
-Out(h) == IF Emit THEN PrintT("BEH " \o ToJson([lim |-> lim, steps |-> h])) ELSE TRUE
+Out(h) == IF Emit THEN PrintT("BEH " \o ToJson([lim |-> lim, src |-> skind, steps |-> h])) ELSE TRUE
 \* record a step of the script (environment steps and the two gates Read / Write of a copier)
 H(x) == IF Gen THEN hist' = Append(hist, x) /\ Out(hist') ELSE hist' = hist
 NoH  == hist' = hist
@@ -189,7 +218,7 @@ LimU   == UNCHANGED <<lim, tokens, paid>>
 CopU   == UNCHANGED <<sent, delivered, rdOff, inflight, pc, rdgen, rdErr>>
 FaultU == UNCHANGED <<armed, glitch, nfault, stalled, routeFail>>
 RepU   == UNCHANGED <<replaced, oldClosed>>
-XU     == UNCHANGED <<akind, held, seenEOF, statStall, closerBusy>>
+XU     == UNCHANGED <<akind, skind, held, seenEOF, statStall, closerBusy>>
 DevU   == UNCHANGED <<devLimErr, devStale, lost, misorder, crashed, dropped>>
 
 \* ---- environment: the two clients, the target's arrival, third parties --------------------------
@@ -209,12 +238,13 @@ Send(e, c) ==
 \* between close(ready) and that load is, for the copier, a replacement before the attach)
 Attach(k) ==
   /\ k \in AttachKinds /\ ~attached /\ registered /\ ~bridgeClosed
-  /\ (k = "xnode" => ~replaced)
+  /\ (Splice(k) => ~replaced)
+  /\ (k = "fwd" => ended # "bridge")
   /\ (k # "local" => endSt["T"] = "open")     \* a connection that is gone cannot shake hands / dial
   /\ attached' = TRUE /\ akind' = k
   \* local / pkt: Bridge.Start launches its copiers (the t2s goroutine still has to start running);
   \* xnode: runBridgeForward's two io.Copy loops
-  /\ pc' = [d \in Dirs |-> IF d = "t2s" /\ k # "xnode" THEN "start" ELSE "read"]
+  /\ pc' = [d \in Dirs |-> IF d = "t2s" /\ ~Splice(k) THEN "start" ELSE "read"]
   /\ rdgen' = IF replaced THEN 2 ELSE 1
   /\ IF k = "xnode" /\ DevBufio /\ avail["t"] # <<>>
      THEN \* DEVIATION: the discarded buffered reader has swallowed what came right behind the frame
@@ -225,7 +255,7 @@ Attach(k) ==
   /\ H([a |-> "attach", k |-> k])
   /\ LimU /\ FaultU /\ RepU
   /\ UNCHANGED <<endSt, sent, delivered, inflight, bridgeClosed, registered, nsend, ended, endMode, rdErr,
-                 held, seenEOF, statStall, closerBusy, devLimErr, devStale, misorder, crashed, dropped>>
+                 skind, held, seenEOF, statStall, closerBusy, devLimErr, devStale, misorder, crashed, dropped>>
 
 \* an end may only end the tunnel under the "slow" limit when nothing of its own is still being paced
 \* out (generation only): closure then has to come at once, not after 30 s of legitimate pacing
@@ -306,7 +336,7 @@ RouteFail ==
 \* the source client re-opens the tunnel on a new connection (handleExistingBridge)
 ReplaceSource ==
   /\ Replace /\ ~replaced /\ ended = "none" /\ endSt["S"] = "open" /\ registered /\ ~bridgeClosed
-  /\ akind # "xnode"                \* (runBridgeForward works on the forwarder it found when it started)
+  /\ ~Splice(akind)                 \* (runBridgeForward works on the forwarder it found when it started)
   /\ replaced' = TRUE
   /\ IF DevStaleSrc
      THEN UNCHANGED <<oldClosed, avail, dropped>>
@@ -329,6 +359,21 @@ CloseOld ==
   /\ XU
 
 \* ---- the bridge ------------------------------------------------------------------------------
+\* splice: a direction that has finished half-closes its destination (CloseWrite): that end sees EOF
+\* (as found a forwarded tunnel passes nothing on to the target's connection)
+PassesEof(d) == Splice(akind) /\ ~(akind = "fwd" /\ d = "s2t" /\ DevFwdNoEof)
+EofTo(d) == seenEOF' = IF PassesEof(d) /\ pc'[d] = "done" /\ pc[d] # "done" THEN [seenEOF EXCEPT ![Dst(d)] = TRUE] ELSE seenEOF
+
+\* the stale-connection sweeper has closed the stream of a tunnel leg it took for a silent control connection
+Swept(e) == /\ held
+            /\ \/ e = "T" /\ akind = "pkt" /\ "T" \in RegLegs
+               \/ e = "T" /\ akind = "fwd" /\ "F" \in RegLegs
+               \/ e = "S" /\ skind = "pkt" /\ akind # "fwd" /\ "S" \in RegLegs
+\* the connection manager's idle sweep has closed the cross-node connection (this node's source end) of a busy tunnel
+IdleCut == held /\ DevIdleSweep /\ akind = "fwd"
+Severed(e) == Swept(e) \/ (e = "S" /\ IdleCut)      \* the server itself closed end e's connection, the tunnel not being over
+Cut(d) == bridgeClosed \/ Severed(Src(d))           \* the connection direction d reads from was closed under it
+
 \* CopyWithControl of direction d returned.  The s2t goroutine re-enters it when the source
 \* forwarder changed meanwhile (and the context is still live); otherwise the goroutine ends.
 ExitCopy(d) ==
@@ -352,13 +397,7 @@ Enter(d) ==
   /\ LimU /\ FaultU /\ RepU
   /\ UNCHANGED <<attached, endSt, avail, sent, delivered, rdOff, inflight, rdgen, bridgeClosed, nsend, ended,
                  endMode, rdErr, devLimErr, devStale, lost, misorder, dropped>>
-  \* xnode: a direction that has finished half-closes its destination (CloseWrite): that end sees EOF
-  /\ seenEOF' = IF akind = "xnode" /\ pc'[d] = "done" /\ pc[d] # "done" THEN [seenEOF EXCEPT ![Dst(d)] = TRUE] ELSE seenEOF
-  /\ UNCHANGED <<akind, held, statStall, closerBusy>>
-
-\* the sweeper has closed the stream of the target leg it took for a silent control connection
-Swept == held /\ DevLegRegistered /\ akind = "pkt"
-Cut(d) == bridgeClosed \/ (d = "t2s" /\ Swept)       \* the connection direction d reads from was closed under it
+  /\ EofTo(d) /\ UNCHANGED <<akind, skind, held, statStall, closerBusy>>
 
 \* src.Read(buf)
 Read(d) ==
@@ -387,7 +426,7 @@ Read(d) ==
            /\ avail' = [avail EXCEPT ![ch] = IF Head(@) > n THEN <<Head(@) - n>> \o Tail(@) ELSE Tail(@)]
            /\ rdErr' = [rdErr EXCEPT ![d] = with]
            /\ glitch' = IF ~OnOld(d) /\ glitch[src] = "tn" /\ with = "none" THEN [glitch EXCEPT ![src] = "no"] ELSE glitch
-           /\ pc' = [pc EXCEPT ![d] = IF lim = "none" \/ akind = "xnode" THEN "write" ELSE "limit"]
+           /\ pc' = [pc EXCEPT ![d] = IF lim = "none" \/ Splice(akind) THEN "write" ELSE "limit"]
         /\ UNCHANGED <<rdgen>>
      \/ \* end of stream / read error without bytes
         /\ (Cut(d) => OnOld(d)) /\ (OnOld(d) \/ glitch[src] # "t0")
@@ -397,9 +436,7 @@ Read(d) ==
   /\ H([a |-> "R", d |-> d])
   /\ UNCHANGED <<lim, tokens, paid, attached, endSt, sent, delivered, armed, nfault, stalled, routeFail, bridgeClosed, registered,
                  nsend, ended, endMode>> /\ RepU /\ DevU
-  \* xnode: a direction that has finished half-closes its destination (CloseWrite): that end sees EOF
-  /\ seenEOF' = IF akind = "xnode" /\ pc'[d] = "done" /\ pc[d] # "done" THEN [seenEOF EXCEPT ![Dst(d)] = TRUE] ELSE seenEOF
-  /\ UNCHANGED <<akind, held, statStall, closerBusy>>
+  /\ EofTo(d) /\ UNCHANGED <<akind, skind, held, statStall, closerBusy>>
 
 \* rateLimiter.WaitN(ctx, n)
 Limit(d) ==
@@ -431,9 +468,7 @@ Limit(d) ==
   /\ NoH
   /\ UNCHANGED <<lim, attached, endSt, avail, sent, delivered, rdOff, bridgeClosed, registered, nsend, ended, endMode,
                  devStale, misorder, crashed, dropped>> /\ FaultU /\ RepU
-  \* xnode: a direction that has finished half-closes its destination (CloseWrite): that end sees EOF
-  /\ seenEOF' = IF akind = "xnode" /\ pc'[d] = "done" /\ pc[d] # "done" THEN [seenEOF EXCEPT ![Dst(d)] = TRUE] ELSE seenEOF
-  /\ UNCHANGED <<akind, held, statStall, closerBusy>>
+  /\ EofTo(d) /\ UNCHANGED <<akind, skind, held, statStall, closerBusy>>
 
 \* time passes: the bucket refills (only interesting while a copier waits)
 Refill ==
@@ -449,11 +484,11 @@ Write(d) ==
   /\ pc[d] = "write"
   /\ LET dst == Dst(d) n == inflight[d] IN
      \/ \* destination gone (closed by the bridge, or the end closed / failed): error, chunk dropped
-        /\ bridgeClosed \/ endSt[dst] # "open" \/ (d = "s2t" /\ Swept)
+        /\ bridgeClosed \/ endSt[dst] # "open" \/ Severed(dst)
         /\ Drop(d) /\ ExitCopy(d)
         /\ UNCHANGED <<delivered, endSt, armed, ended, misorder>>
      \/ \* short write with error: part of the chunk is taken, the connection is then broken
-        /\ ~bridgeClosed /\ endSt[dst] = "open" /\ armed[dst] /\ ~stalled[dst] /\ ~(d = "s2t" /\ Swept)
+        /\ ~bridgeClosed /\ endSt[dst] = "open" /\ armed[dst] /\ ~stalled[dst] /\ ~Severed(dst)
         /\ LET k == n \div 2 IN
            /\ delivered' = [delivered EXCEPT ![d] = @ + k]
            /\ misorder' = (misorder \/ rdOff[d] - n # delivered[d])
@@ -463,7 +498,7 @@ Write(d) ==
         /\ armed' = [armed EXCEPT ![dst] = FALSE]
         /\ ended' = IF ended = "none" THEN "error" ELSE ended
         /\ ExitCopy(d)
-     \/ /\ ~bridgeClosed /\ endSt[dst] = "open" /\ ~armed[dst] /\ ~stalled[dst] /\ ~(d = "s2t" /\ Swept)    \* (parked while the end does not drain)
+     \/ /\ ~bridgeClosed /\ endSt[dst] = "open" /\ ~armed[dst] /\ ~stalled[dst] /\ ~Severed(dst)    \* (parked while the end does not drain)
         /\ delivered' = [delivered EXCEPT ![d] = @ + n]
         /\ misorder' = (misorder \/ rdOff[d] - n # delivered[d])
         /\ inflight' = [inflight EXCEPT ![d] = 0]
@@ -474,9 +509,7 @@ Write(d) ==
   /\ H([a |-> "W", d |-> d])
   /\ UNCHANGED <<lim, tokens, paid, attached, avail, sent, rdOff, glitch, nfault, stalled, routeFail, bridgeClosed, registered, nsend, endMode,
                  devLimErr, devStale, crashed, dropped>> /\ RepU
-  \* xnode: a direction that has finished half-closes its destination (CloseWrite): that end sees EOF
-  /\ seenEOF' = IF akind = "xnode" /\ pc'[d] = "done" /\ pc[d] # "done" THEN [seenEOF EXCEPT ![Dst(d)] = TRUE] ELSE seenEOF
-  /\ UNCHANGED <<akind, held, statStall, closerBusy>>
+  /\ EofTo(d) /\ UNCHANGED <<akind, skind, held, statStall, closerBusy>>
 
 \* closeBridge(): the first copier goroutine that ends runs Bridge.Close() - the current source
 \* and target connections are closed (both ends observe closure), then the context is cancelled
@@ -488,19 +521,19 @@ Traffic == delivered["s2t"] + delivered["t2s"] > 0
 BackendFirst == DevCleanupFirst /\ statStall /\ Traffic
 CloseBridge ==
   /\ ~bridgeClosed /\ ~LockHeld /\ ~BackendFirst
-  /\ IF akind = "xnode" THEN \A d \in Dirs : pc[d] = "done" ELSE \E d \in Dirs : pc[d] = "done"
+  /\ IF Splice(akind) THEN \A d \in Dirs : pc[d] = "done" ELSE \E d \in Dirs : pc[d] = "done"
   /\ bridgeClosed' = TRUE /\ closerBusy' = TRUE          \* connections closed, context cancelled; now the handlers
   /\ NoH
   /\ LimU /\ CopU /\ FaultU /\ RepU /\ DevU
-  /\ UNCHANGED <<attached, endSt, avail, registered, nsend, ended, endMode, akind, held, seenEOF, statStall>>
+  /\ UNCHANGED <<attached, endSt, avail, registered, nsend, ended, endMode, akind, skind, held, seenEOF, statStall>>
 
 \* Bridge.Close() called by someone else (server shutdown, quota enforcement)
 ExtClose ==
-  /\ ExtCloseOn /\ ~bridgeClosed /\ ~LockHeld /\ ~BackendFirst /\ registered /\ ended = "none"
+  /\ ExtCloseOn /\ ~bridgeClosed /\ ~LockHeld /\ ~BackendFirst /\ registered /\ ended = "none" /\ akind # "fwd"   \* (fwd: no bridge on this node)
   /\ bridgeClosed' = TRUE /\ ended' = "bridge" /\ closerBusy' = TRUE
   /\ H([a |-> "extclose"])
   /\ LimU /\ CopU /\ FaultU /\ RepU /\ DevU
-  /\ UNCHANGED <<attached, endSt, avail, registered, nsend, endMode, akind, held, seenEOF, statStall>>
+  /\ UNCHANGED <<attached, endSt, avail, registered, nsend, endMode, akind, skind, held, seenEOF, statStall>>
 
 \* wg.Wait() returned (or Start failed before the target came): runBridgeLifecycle deletes the map entry
 Unregister ==
@@ -542,7 +575,7 @@ CleanupDone ==
   /\ closerBusy' = FALSE
   /\ NoH
   /\ LimU /\ CopU /\ FaultU /\ RepU /\ DevU
-  /\ UNCHANGED <<attached, endSt, avail, bridgeClosed, registered, nsend, ended, endMode, akind, held, seenEOF, statStall>>
+  /\ UNCHANGED <<attached, endSt, avail, bridgeClosed, registered, nsend, ended, endMode, akind, skind, held, seenEOF, statStall>>
 
 \* the statistics backend stops answering / answers again
 StatStall ==
@@ -551,25 +584,26 @@ StatStall ==
   /\ H([a |-> "statstall"])
   /\ LimU /\ CopU /\ RepU /\ DevU
   /\ UNCHANGED <<attached, endSt, avail, bridgeClosed, registered, nsend, ended, endMode, armed, glitch, stalled, routeFail,
-                 akind, held, seenEOF, closerBusy>>
+                 akind, skind, held, seenEOF, closerBusy>>
 StatResume ==
   /\ statStall
   /\ statStall' = FALSE
   /\ H([a |-> "statresume"])
   /\ LimU /\ CopU /\ FaultU /\ RepU /\ DevU
-  /\ UNCHANGED <<attached, endSt, avail, bridgeClosed, registered, nsend, ended, endMode, akind, held, seenEOF, closerBusy>>
+  /\ UNCHANGED <<attached, endSt, avail, bridgeClosed, registered, nsend, ended, endMode, akind, skind, held, seenEOF, closerBusy>>
 
-\* the tunnel outlives the heartbeat timeout (and a sweep of the stale-connection cleaner)
+\* the tunnel outlives the heartbeat timeout and the idle timeout (and a sweep of the stale-connection cleaner
+\* and of the connection manager), both ends talking all the while
 Hold ==
   /\ HoldOn /\ attached /\ ~held /\ ended = "none" /\ ~bridgeClosed /\ registered
   /\ held' = TRUE
   /\ H([a |-> "hold"])
   /\ LimU /\ CopU /\ FaultU /\ RepU /\ DevU
-  /\ UNCHANGED <<attached, endSt, avail, bridgeClosed, registered, nsend, ended, endMode, akind, seenEOF, statStall, closerBusy>>
+  /\ UNCHANGED <<attached, endSt, avail, bridgeClosed, registered, nsend, ended, endMode, akind, skind, seenEOF, statStall, closerBusy>>
 
-\* xnode: an end that has seen end-of-stream closes its connection (the peer node's forwarder, a client)
+\* splice: an end that has seen end-of-stream closes its connection (the peer node's forwarder, a client)
 React(e) ==
-  /\ akind = "xnode" /\ seenEOF[e] /\ endSt[e] = "open" /\ ~bridgeClosed
+  /\ Splice(akind) /\ seenEOF[e] /\ endSt[e] = "open" /\ ~bridgeClosed
   /\ endSt' = [endSt EXCEPT ![e] = "closed"]
   /\ NoH
   /\ LimU /\ CopU /\ FaultU /\ RepU /\ DevU
@@ -600,7 +634,7 @@ TypeOK == /\ lim \in Lims /\ tokens \in 0..BUF /\ attached \in BOOLEAN /\ bridge
           /\ \A e \in Ends : endSt[e] \in {"open", "closed", "failed"} /\ glitch[e] \in {"no", "t0", "tn"} /\ endMode[e] \in {"plain", "data"}
           /\ \A d \in Dirs : rdErr[d] \in {"none", "eof", "err"}
           /\ \A e \in Ends : stalled[e] \in BOOLEAN /\ seenEOF[e] \in BOOLEAN
-          /\ akind \in {"none", "local", "pkt", "xnode"} /\ held \in BOOLEAN /\ statStall \in BOOLEAN /\ closerBusy \in BOOLEAN
+          /\ akind \in {"none", "local", "pkt", "xnode", "fwd"} /\ skind \in {"direct", "pkt"} /\ held \in BOOLEAN /\ statStall \in BOOLEAN /\ closerBusy \in BOOLEAN
           /\ rdgen \in {1, 2} /\ ended \in {"none", "close", "error", "bridge"}
 
 \* what an end has received is a prefix of what the other end sent: every chunk is written at the
@@ -612,7 +646,9 @@ InOrderKnown == misorder => devLimErr          \* a hole can only follow the lim
 \* no end closed or failed, nobody closed the bridge: the tunnel stays up and nothing is dropped
 Untouched == ended = "none" /\ (attached \/ registered)
 NoSpontaneousEnd      == Untouched => (~bridgeClosed /\ \A d \in Dirs : pc[d] # "done" /\ lost[d] = 0)
-NoSpontaneousEndKnown == Untouched => (devLimErr \/ (~bridgeClosed /\ \A d \in Dirs : pc[d] # "done" /\ lost[d] = 0))
+\* as found: a forwarded tunnel that outlives the heartbeat / idle timeout is cut by the sweepers
+KnownSweep == held /\ akind = "fwd" /\ ("F" \in RegLegs \/ DevIdleSweep)
+NoSpontaneousEndKnown == Untouched => (devLimErr \/ KnownSweep \/ (~bridgeClosed /\ \A d \in Dirs : pc[d] # "done" /\ lost[d] = 0))
 
 \* ... and once the copiers have nothing left to do, everything sent has been delivered
 Idle(d) == pc[d] = "read" /\ avail[RdChan(d)] = <<>> /\ glitch[Src(d)] # "t0"
@@ -633,7 +669,7 @@ Gone(d) == IF d = "s2t" THEN dropped ELSE 0
 Stuck(d) == /\ ended = "none" /\ ~(d = "s2t" /\ Stranded) /\ ~stalled[Dst(d)] /\ attached /\ ~bridgeClosed /\ ~OnOld(d) /\ pc[d] # "done" /\ endSt[Src(d)] # "failed"
             /\ delivered[d] + lost[d] + Gone(d) < sent[d] /\ ~CanStep(d)
 Independent      == \A d \in Dirs : ~Stuck(d)
-IndependentKnown == devLimErr \/ Independent     \* limiter error + replacement: the rest of the old connection is never read
+IndependentKnown == devLimErr \/ KnownSweep \/ Independent     \* limiter error + replacement: the rest of the old connection is never read
 
 \* the server forgets the tunnel only after the bridge is closed; closed implies both ends saw it
 ForgetImpliesClosed == ~registered => bridgeClosed
@@ -649,11 +685,12 @@ Unnoticed == (\E d \in Dirs : pc[d] = "write" /\ stalled[Dst(d)]) /\ \A d \in Di
 \* answer may delay the forgetting, never the closure)
 ClosureSeen      == \A e \in Ends : (attached /\ endSt[e] # "open") ~> (bridgeClosed \/ seenEOF[Other(e)] \/ Unnoticed)
 Forgotten        == (attached /\ ended # "none") ~> (~registered \/ Unnoticed \/ statStall)
-ClosureSeenKnown == \A e \in Ends : (attached /\ endSt[e] # "open") ~> (bridgeClosed \/ seenEOF[Other(e)] \/ Unnoticed \/ (replaced /\ ~oldClosed))
-ForgottenKnown   == (attached /\ ended # "none") ~> (~registered \/ Unnoticed \/ statStall \/ crashed \/ devStale \/ (replaced /\ ~oldClosed))
+KnownNoEof == akind = "fwd" /\ DevFwdNoEof        \* as found: the source's end-of-stream is not passed on to a forwarded target
+ClosureSeenKnown == \A e \in Ends : (attached /\ endSt[e] # "open") ~> (bridgeClosed \/ seenEOF[Other(e)] \/ Unnoticed \/ (replaced /\ ~oldClosed) \/ KnownNoEof)
+ForgottenKnown   == (attached /\ ended # "none") ~> (~registered \/ Unnoticed \/ statStall \/ crashed \/ devStale \/ (replaced /\ ~oldClosed) \/ KnownNoEof)
 \* a tunnel whose target never comes is forgotten as well (30 s timer)
 NeverAttached == (~attached) ~> (attached \/ ~registered)
 \* bytes sent while both ends stay open are eventually delivered: the copiers always catch up again
 CatchUp      == []<>((\E e \in Ends : stalled[e]) \/ Stranded \/ ~attached \/ ended # "none" \/ (replaced /\ ~oldClosed) \/ \A d \in Dirs : delivered[d] + Gone(d) = sent[d])
-CatchUpKnown == []<>((\E e \in Ends : stalled[e]) \/ Stranded \/ ~attached \/ ended # "none" \/ (replaced /\ ~oldClosed) \/ devLimErr \/ \A d \in Dirs : delivered[d] + Gone(d) = sent[d])
+CatchUpKnown == []<>((\E e \in Ends : stalled[e]) \/ Stranded \/ ~attached \/ ended # "none" \/ (replaced /\ ~oldClosed) \/ devLimErr \/ KnownSweep \/ \A d \in Dirs : delivered[d] + Gone(d) = sent[d])
 =============================================================================
